@@ -17,7 +17,7 @@ ASSUMPTIONS = [
     "the user-side master obeys the contract of the property; it ends every run with flush asserted",
 ]
 MIN_NONTRIVIAL = {"quick": 12, "thorough": 60}
-ORDERS = ["ascending", "descending", "repeated", "random", "strided", "ascending-partial"]
+ORDERS = ["ascending", "descending", "repeated", "random", "strided", "ascending-partial", "ping-pong"]
 
 
 def cases(tier, seed):
@@ -79,6 +79,14 @@ def gen_addrs(c, r, aw_user):
         elif order == "repeated":
             a = base + r.randrange(ratio)
             out += [a] * r.randint(2, 4)
+        elif order == "ping-pong":
+            # two buffers a power of two apart (their wide-word addresses differ in one high bit only), visited alternately
+            # with partial ascending runs: consecutive commands whose addresses differ only in the top bits
+            bit = r.choice([aw_user - 1, aw_user - 2, aw_user - 1 - (ratio.bit_length() - 1), r.randrange(ratio.bit_length() - 1, aw_user)])
+            other = (base ^ (1 << bit)) % (1 << aw_user)
+            a, b = sorted(r.sample(range(ratio + 1), 2)) if ratio > 1 else (0, 1)
+            for rep in range(r.randint(1, 3)):
+                out += [base + i for i in range(a, b)] + [other + i for i in range(a, b)]
         elif order == "strided":
             st = r.choice([2, 3, ratio + 1])
             a = base
